@@ -3,15 +3,15 @@
  confirms: patch applies; suite result equals the baseline counts; demo exits 0 without and non-zero with the change"""
 import json, os, re, shutil, subprocess, sys, tempfile
 prop, var = sys.argv[1], sys.argv[2]
-src = f'/tmp/seedout/{prop}/{var}'
+src = f"{os.environ.get('SEEDOUT', '/tmp/seedout')}/{prop}/{var}"
 patch = sys.argv[3] if len(sys.argv) > 3 else f'{src}/patch.diff'
-out = f'/verif/seeded/{prop}-{var}'
+out = f"/verif/seeded/{prop}-{os.environ.get('OUTVAR', var)}"
 wt = tempfile.mkdtemp(prefix='keepseed_', dir='/tmp')
 os.rmdir(wt)
 def sh(cmd, cwd=None, timeout=1200):
     p = subprocess.run(cmd, shell=True, cwd=cwd, capture_output=True, text=True, timeout=timeout)
     return p.returncode, p.stdout + p.stderr
-meta = {'property': prop, 'variant': var}
+meta = {'property': prop, 'variant': os.environ.get('OUTVAR', var)}
 try:
     rc, o = sh(f'/verif/tools/mkworktree.sh {wt}')
     assert rc == 0, o
